@@ -1183,6 +1183,19 @@ int32_t tls13ParsePreSharedKey(ssl_t *ssl,
                 rc = tls13FindSessionPsk(ssl,
                         idBuf.buf.start, identityLen,
                         &psk);
+                if (rc == PS_SUCCESS && psk != NULL && psk->isResumptionPsk &&
+                    psk->params != NULL && psk->params->ticketLifetime != 0)
+                {
+                    /* Tickets are only honoured for the lifetime we
+                       advertised in NewSessionTicket */
+                    psGetTime(&now, ssl->userPtr);
+                    if (psDiffMsecs(psk->params->timestamp, now, ssl->userPtr) / 1000 >
+                            (int32) psk->params->ticketLifetime)
+                    {
+                        psTraceInfo("Ignoring expired ticket\n");
+                        psk = NULL;
+                    }
+                }
                 if (rc == PS_SUCCESS && psk != NULL &&
                     tls13GetPskHmacAlg(psk) ==
                         tls13CipherIdToHmacAlg(ssl->cipher->ident))
